@@ -328,3 +328,66 @@ def check_ctx_managers(repo: Repo, where: str) -> tuple[int, list[tuple[str, str
         except ModelRaise as err:
             bad.append(("tag() raises", f"consumed inside: {consumed}: {err}"))
     return n, bad
+
+
+def check_checkpoint_cover(repo: Repo, where: str) -> tuple[int, list[tuple[str, str]]]:
+    """COVER (semantic): ParserState.checkpoint / ok / restore, evaluated from their syntax trees on a model state
+    whose backtrackable components are recorders: checkpoint() must take exactly one snapshot of each of
+    user_stack, rule_stack and atomic_depth and save the position; ok() must release exactly those and keep the
+    position; restore() must reinstate each and the saved position - for empty and non-empty components alike
+    (a component saved only when non-empty pairs the wrong snapshots later)."""
+    cm = program(repo, where)
+    bad: list[tuple[str, str]] = []
+    n = 0
+    want = {
+        "checkpoint": {"user_stack": ["snapshot"], "rule_stack": ["snapshot"], "atomic_depth": ["snapshot"]},
+        "ok": {"user_stack": ["drop_snapshot"], "rule_stack": ["drop_snapshot"], "atomic_depth": ["drop"]},
+        "restore": {"user_stack": ["restore"], "rule_stack": ["restore"], "atomic_depth": ["restore"]},
+    }
+
+    def recorder(name: str, nonempty: bool, log: dict) -> Obj:
+        kinds = ("SnapshottingInt",) if name == "atomic_depth" else ("Stack",)
+        o = Obj(kinds + ("Recorder",))
+        for m in ("snapshot", "drop_snapshot", "restore", "drop"):
+            o.__dict__[m] = (lambda m=m: log.setdefault(name, []).append(m))
+        o.__dict__["__len__"] = lambda: 2 if nonempty else 0
+        o.__dict__["__bool__"] = lambda: nonempty
+        o.__dict__["empty"] = lambda: not nonempty
+        o.__dict__["items"] = ["x", "y"] if nonempty else []
+        o.__dict__["_value"] = 1 if nonempty else 0
+        return o
+
+    cm._cache[("Recorder", "__len__")] = lambda o: o.__dict__["__len__"]()  # noqa: SLF001
+    cm._cache[("Recorder", "__bool__")] = lambda o: o.__dict__["__bool__"]()  # noqa: SLF001
+    for nonempty in (False, True):
+        for meth in ("checkpoint", "ok", "restore"):
+            n += 1
+            log: dict = {}
+            st, _ = fresh_state(cm, (), None, [])
+            for comp in ("user_stack", "rule_stack", "atomic_depth"):
+                st.__dict__[comp] = recorder(comp, nonempty, log)
+            st.pos = 3
+            desc = f"{meth}() with {'non-empty' if nonempty else 'empty'} components"
+            try:
+                if meth != "checkpoint":
+                    cm.call(st, "checkpoint")
+                    log.clear()
+                    st.pos = 7
+                hist_before = list(st.__dict__.get("_pos_history", []))
+                cm.call(st, meth)
+            except ModelRaise as err:
+                bad.append((f"{meth}() raises", f"{desc}: {err}"))
+                continue
+            for comp, ops_ in want[meth].items():
+                got = log.get(comp, [])
+                if got != ops_:
+                    how = "does not apply" if not got else "applies"
+                    bad.append((f"{meth}() {how} {'/'.join(got) or ops_[0]} to {comp} where exactly one '{ops_[0]}' is specified", f"{desc}: operations on {comp}: {got}"))
+            hist = list(st.__dict__.get("_pos_history", []))
+            if meth == "checkpoint" and hist != hist_before + [3]:
+                bad.append(("checkpoint() does not save the position", f"{desc}: saved positions {hist}"))
+            if meth == "ok" and (hist != hist_before[:-1] or st.pos != 7):
+                bad.append(("ok() does not discard exactly the saved position, or moves the position", f"{desc}: saved positions {hist_before} -> {hist}, position {st.pos}"))
+            if meth == "restore" and (hist != hist_before[:-1] or st.pos != 3):
+                bad.append(("restore() does not reinstate the saved position", f"{desc}: saved positions {hist_before} -> {hist}, position {st.pos} (saved 3)"))
+    return n, bad
